@@ -8,10 +8,3 @@ Proof. vm_compute. reflexivity. Qed.
 Theorem parse_iff_grammar_upto6 : forall s, (length s <= 6)%nat ->
   (forall c, In c s -> In c alphabet12) -> agrees s = true.
 Proof. exact (sweep_lift agrees 6 sweep_agrees_6). Qed.
-
-Lemma sweep_reparses_6 : forallb (fun k => forallb reparses (strings alphabet12 k)) (seq 0 7) = true.
-Proof. vm_compute. reflexivity. Qed.
-
-Theorem parse_to_string_upto6 : forall s, (length s <= 6)%nat ->
-  (forall c, In c s -> In c alphabet12) -> reparses s = true.
-Proof. exact (sweep_lift reparses 6 sweep_reparses_6). Qed.
